@@ -21,23 +21,23 @@ theorem cat_eq_some {a b : Option (List Op)} {c : List Op} (h : (a +++ b) = some
       simp only [cat, Option.some.injEq] at h
       exact ⟨x, y, rfl, rfl, h.symm⟩
 
-theorem rdNum_at (P : Params) (hP : P.Ok) (k n : Nat) (hn : n < 256 ^ k) (ops : List Op) (r : R)
-    (h : At P (wNum k n :: ops) r) : ∃ r', rdNum P r k = (r', n) ∧ At P ops r' := by
-  obtain ⟨r', h1, h2⟩ := at_read P hP (leBytes k n) ops r h
+theorem rdNum_at (P : Params) (hP : P.Ok) (d : Nat) (k n : Nat) (hn : n < 256 ^ k) (ops : List Op) (r : R)
+    (h : At P d (wNum k n :: ops) r) : ∃ r', rdNum P r k = (r', n) ∧ At P d ops r' := by
+  obtain ⟨r', h1, h2⟩ := at_read P hP d (leBytes k n) ops r h
   rw [length_leBytes] at h1
   refine ⟨r', ?_, h2⟩
   simp only [rdNum, h1, leVal_leBytes, Nat.mod_eq_of_lt hn]
 
-theorem str_at (P : Params) (hP : P.Ok) (k : Nat) (s : Bytes) (o : List Op) (ho : strOps k s = some o) (K : List Op) (r : R)
-    (h : At P (o ++ K) r) :
-    ∃ r1 r2, rdNum P r k = (r1, s.length) ∧ rread P r1 s.length = (r2, s) ∧ At P K r2 := by
+theorem str_at (P : Params) (hP : P.Ok) (d : Nat) (k : Nat) (s : Bytes) (o : List Op) (ho : strOps k s = some o) (K : List Op) (r : R)
+    (h : At P d (o ++ K) r) :
+    ∃ r1 r2, rdNum P r k = (r1, s.length) ∧ rread P r1 s.length = (r2, s) ∧ At P d K r2 := by
   simp only [strOps] at ho
   split at ho
   · rename_i hlen
     simp only [Option.some.injEq] at ho
     subst ho
-    obtain ⟨r1, e1, a1⟩ := rdNum_at P hP k s.length hlen _ r h
-    obtain ⟨r2, e2, a2⟩ := at_read P hP s _ r1 a1
+    obtain ⟨r1, e1, a1⟩ := rdNum_at P hP d k s.length hlen _ r h
+    obtain ⟨r2, e2, a2⟩ := at_read P hP d s _ r1 a1
     exact ⟨r1, r2, e1, e2, a2⟩
   · simp at ho
 
@@ -46,17 +46,17 @@ theorem packRev_lt (rev : Option Bytes) : packRev rev < 256 ^ 2 := by
   | none => simp [packRev]
   | some s => simp only [packRev]; exact Nat.mod_lt _ (by decide)
 
-theorem model_at (P : Params) (hP : P.Ok) (name : Bytes) (rev : Option Bytes) (wf : Bool) (o : List Op)
-    (ho : modelOps name rev wf = some o) (hne : name ≠ []) (K : List Op) (r : R) (h : At P (o ++ K) r) :
-    ∃ r', pModel P r wf = (r', name, unpackRev (packRev rev)) ∧ At P K r' := by
+theorem model_at (P : Params) (hP : P.Ok) (d : Nat) (name : Bytes) (rev : Option Bytes) (wf : Bool) (o : List Op)
+    (ho : modelOps name rev wf = some o) (hne : name ≠ []) (K : List Op) (r : R) (h : At P d (o ++ K) r) :
+    ∃ r', pModel P r wf = (r', name, unpackRev (packRev rev)) ∧ At P d K r' := by
   obtain ⟨x, y, hx, hy, rfl⟩ := cat_eq_some ho
   simp only [Option.some.injEq] at hy
   subst hy
   rw [List.append_assoc] at h
-  obtain ⟨r1, r2, e1, e2, a2⟩ := str_at P hP P_MODNAME name x hx _ r h
+  obtain ⟨r1, r2, e1, e2, a2⟩ := str_at P hP d P_MODNAME name x hx _ r h
   have hlen : name.length ≠ 0 := by simpa using hne
   simp only [List.cons_append] at a2
-  obtain ⟨r3, e3, a3⟩ := rdNum_at P hP P_REV (packRev rev) (packRev_lt rev) _ r2 a2
+  obtain ⟨r3, e3, a3⟩ := rdNum_at P hP d P_REV (packRev rev) (packRev_lt rev) _ r2 a2
   have c1 : R_MODNAME = P_MODNAME := rfl
   have c2 : R_REV = P_REV := rfl
   have c3 : R_FEATCOUNT = P_FEATCOUNT := rfl
@@ -66,7 +66,7 @@ theorem model_at (P : Params) (hP : P.Ok) (name : Bytes) (rev : Option Bytes) (w
     exact ⟨r3, by simp only [pModel, c1, c2, e1, hlen, ↓reduceIte, e2, e3, Bool.false_eq_true], a3⟩
   | true =>
     simp only [↓reduceIte, List.cons_append, List.nil_append] at a3
-    obtain ⟨r4, e4, a4⟩ := rdNum_at P hP P_FEATCOUNT 0 (by decide) _ r3 a3
+    obtain ⟨r4, e4, a4⟩ := rdNum_at P hP d P_FEATCOUNT 0 (by decide) _ r3 a3
     exact ⟨r4, by simp only [pModel, c1, c2, c3, e1, hlen, ↓reduceIte, e2, e3, e4, skipStrings], a4⟩
 
 /-! ### schema hash -/
@@ -98,15 +98,15 @@ theorem frame_h (S : LSchema) (par : Option Nat) :
 theorem frame_ht (S : LSchema) (par : Option Nat) :
     (S.frame par).ht = hashSiblings (S.frame par).h (S.sibs par).length := rfl
 
-theorem rdBytes1_at (P : Params) (hP : P.Ok) (l : List Nat) (hl : ∀ b ∈ l, b < 256) (K : List Op) :
-    ∀ (r : R), At P ((l.map fun b => Op.write [UInt8.ofNat b]) ++ K) r →
-      ∃ r', rdBytes1 P l.length r = (r', l) ∧ At P K r' := by
+theorem rdBytes1_at (P : Params) (hP : P.Ok) (d : Nat) (l : List Nat) (hl : ∀ b ∈ l, b < 256) (K : List Op) :
+    ∀ (r : R), At P d ((l.map fun b => Op.write [UInt8.ofNat b]) ++ K) r →
+      ∃ r', rdBytes1 P l.length r = (r', l) ∧ At P d K r' := by
   induction l with
   | nil => intro r h; exact ⟨r, rfl, by simpa using h⟩
   | cons b l ih =>
     intro r h
     simp only [List.map_cons, List.cons_append] at h
-    obtain ⟨r1, e1, a1⟩ := at_read P hP [UInt8.ofNat b] _ r h
+    obtain ⟨r1, e1, a1⟩ := at_read P hP d [UInt8.ofNat b] _ r h
     obtain ⟨r2, e2, a2⟩ := ih (fun x hx => hl x (List.mem_cons_of_mem _ hx)) r1 a1
     have hb := hl b List.mem_cons_self
     refine ⟨r2, ?_, a2⟩
@@ -117,9 +117,9 @@ theorem rdBytes1_at (P : Params) (hP : P.Ok) (l : List Nat) (hl : ∀ b ∈ l, b
 theorem getElem?_idxOf (l : List Nat) (a : Nat) (h : l.idxOf a < l.length) : l[l.idxOf a]? = some a := by
   rw [List.getElem?_eq_getElem h, List.getElem_idxOf]
 
-theorem hash_at (P : Params) (hP : P.Ok) (S : LSchema) (par : Option Nat) (sid : Nat) (o : List Op)
-    (ho : hashOps (S.frame par) sid = some o) (K : List Op) (r : R) (h : At P (o ++ K) r) :
-    ∃ r', pHash P true (S.frame par) r = some (sid, r') ∧ At P K r' ∧ sid ∈ S.sibs par := by
+theorem hash_at (P : Params) (hP : P.Ok) (d : Nat) (S : LSchema) (par : Option Nat) (sid : Nat) (o : List Op)
+    (ho : hashOps (S.frame par) sid = some o) (K : List Op) (r : R) (h : At P d (o ++ K) r) :
+    ∃ r', pHash P true (S.frame par) r = some (sid, r') ∧ At P d K r' ∧ sid ∈ S.sibs par := by
   have hh := frame_h S par
   have hht := frame_ht S par
   have hsibs : (S.frame par).sibs = S.sibs par := rfl
@@ -153,9 +153,9 @@ theorem hash_at (P : Params) (hP : P.Ok) (S : LSchema) (par : Option Nat) (sid :
           intro s i; rw [hh]; exact generateHash_lt _ _ _
         subst hspec
         simp only [seqOf, List.map_cons, List.cons_append] at h
-        obtain ⟨r1, e1, a1⟩ := at_read P hP [UInt8.ofNat (fc.h ((S.sibs par).idxOf sid) ck)] _ r h
+        obtain ⟨r1, e1, a1⟩ := at_read P hP d [UInt8.ofNat (fc.h ((S.sibs par).idxOf sid) ck)] _ r h
         have hlen : ((List.range ck).reverse.map fun j => fc.h ((S.sibs par).idxOf sid) j).length = ck := by simp
-        obtain ⟨r2, e2, a2⟩ := rdBytes1_at P hP _ (by
+        obtain ⟨r2, e2, a2⟩ := rdBytes1_at P hP d _ (by
           intro b hb
           simp only [List.mem_map] at hb
           obtain ⟨j, _, rfl⟩ := hb
@@ -182,9 +182,9 @@ theorem flags_lt (f : Flags) : f.toNat < 256 ^ P_FLAGS := by
   cases a <;> cases b <;> cases c <;> decide
 
 /-- the header of a node that gets no with-defaults annotation -/
-theorem header_at (P : Params) (hP : P.Ok) (o : POpts) (S : LSchema) (n : DNode) (ops : List Op)
-    (ho : headerOps o S n = some ops) (ht : wdTagged o S n = false) (K : List Op) (r : R) (h : At P (ops ++ K) r) :
-    ∃ r', pHeader P S r = some (r', [], n.flags) ∧ At P K r' ∧ n.metas = [] := by
+theorem header_at (P : Params) (hP : P.Ok) (d : Nat) (o : POpts) (S : LSchema) (n : DNode) (ops : List Op)
+    (ho : headerOps o S n = some ops) (ht : wdTagged o S n = false) (K : List Op) (r : R) (h : At P d (ops ++ K) r) :
+    ∃ r', pHeader P S r = some (r', [], n.flags) ∧ At P d K r' ∧ n.metas = [] := by
   simp only [headerOps, ht, Bool.false_eq_true, ↓reduceIte] at ho
   split at ho
   · simp at ho
@@ -194,8 +194,8 @@ theorem header_at (P : Params) (hP : P.Ok) (o : POpts) (S : LSchema) (n : DNode)
     have c1 : R_METACOUNT = P_METACOUNT := rfl
     have c2 : R_FLAGS = P_FLAGS := rfl
     simp only [List.cons_append, List.nil_append] at h
-    obtain ⟨r1, e1, a1⟩ := rdNum_at P hP P_METACOUNT 0 (by decide) _ r h
-    obtain ⟨r2, e2, a2⟩ := rdNum_at P hP P_FLAGS n.flags.toNat (flags_lt _) _ r1 a1
+    obtain ⟨r1, e1, a1⟩ := rdNum_at P hP d P_METACOUNT 0 (by decide) _ r h
+    obtain ⟨r2, e2, a2⟩ := rdNum_at P hP d P_FLAGS n.flags.toNat (flags_lt _) _ r1 a1
     refine ⟨r2, ?_, a2, by simpa using hm⟩
     simp only [pHeader, c1, c2, e1, pMetas, e2, flags_rt]
 
@@ -265,9 +265,9 @@ theorem decVal_encVal (ty : LTy) (v b : Bytes) (hc : CanonVal ty v) (he : encVal
     subst he
     simp only [decVal, Val.unlyb_lyb hwf ⟨_, _, hst⟩, hcan]
 
-theorem value_at (P : Params) (hP : P.Ok) (ty : LTy) (v : Bytes) (ops : List Op) (ho : valueOps ty v = some ops)
-    (hc : CanonVal ty v) (K : List Op) (r : R) (h : At P (ops ++ K) r) :
-    ∃ r', pValue P ty r = some (r', v) ∧ At P K r' := by
+theorem value_at (P : Params) (hP : P.Ok) (d : Nat) (ty : LTy) (v : Bytes) (ops : List Op) (ho : valueOps ty v = some ops)
+    (hc : CanonVal ty v) (K : List Op) (r : R) (h : At P d (ops ++ K) r) :
+    ∃ r', pValue P ty r = some (r', v) ∧ At P d K r' := by
   simp only [valueOps] at ho
   split at ho
   · simp at ho
@@ -282,12 +282,12 @@ theorem value_at (P : Params) (hP : P.Ok) (ty : LTy) (v : Bytes) (ops : List Op)
         simp only [Option.some.injEq] at ho
         subst ho
         simp only [List.cons_append] at h
-        obtain ⟨r1, e1, a1⟩ := rdNum_at P hP P_TERMLEN b.length (by
+        obtain ⟨r1, e1, a1⟩ := rdNum_at P hP d P_TERMLEN b.length (by
           have : UINT32_MAX < 256 ^ P_TERMLEN := by decide
           omega) _ r h
         by_cases hpos : b.length > 0
         · simp only [hpos, ↓reduceIte, List.cons_append, List.nil_append] at a1
-          obtain ⟨r2, e2, a2⟩ := at_read P hP b _ r1 a1
+          obtain ⟨r2, e2, a2⟩ := at_read P hP d b _ r1 a1
           exact ⟨r2, by simp only [pValue, hl, c1, e1, hmax, ↓reduceIte, hpos, e2, hdec, Option.map_some], a2⟩
         · simp only [hpos, ↓reduceIte, List.nil_append] at a1
           have hb : b = [] := List.eq_nil_of_length_eq_zero (by omega)
@@ -299,7 +299,7 @@ theorem value_at (P : Params) (hP : P.Ok) (ty : LTy) (v : Bytes) (ops : List Op)
       have hlen := encVal_len ty v b n hc he hl
       by_cases hpos : n > 0
       · simp only [hpos, ↓reduceIte, List.cons_append, List.nil_append] at h
-        obtain ⟨r2, e2, a2⟩ := at_read P hP b _ r h
+        obtain ⟨r2, e2, a2⟩ := at_read P hP d b _ r h
         rw [hlen] at e2
         exact ⟨r2, by simp only [pValue, hl, hpos, ↓reduceIte, e2, hdec, Option.map_some], a2⟩
       · simp only [hpos, ↓reduceIte, List.nil_append] at h
